@@ -5,8 +5,10 @@ From PM.proofs Require Import Crc_proofs FrB_witness_proofs FrB_rtu_proofs FrB_b
 Open Scope list_scope.
 Open Scope N_scope.
 
-(* the full statement, kept visible: any chunking of a stream of valid frames delivers all of
-   them, in order, without an exception *)
+(* the full statement, kept visible: any chunking of a stream of frames the decoder accepts
+   delivers all of them, in order.  It holds for the classes with a prefix-stable, correct size
+   rule (C06_rtu); it is still refuted for Read Device Identification responses
+   (C06_rtu_mei_refuted) and for frames whose size oracle is wrong (C03_rtu_size_oracle_refuted). *)
 Definition C06_full_statement_rtu : Prop :=
   forall (dec : bytes -> dres) (frames : list (N * bytes)) (chunks : list bytes),
     (forall u p, In (u, p) frames -> dec p = DMsg /\ wfb (u :: p) = true) ->
@@ -14,49 +16,66 @@ Definition C06_full_statement_rtu : Prop :=
     let cfg := {| cf_dec := dec; cf_rules := server_decoder; cf_units := []; cf_single := true |} in
     deliveries (rtu_feed cfg rtu_init chunks) = map (fun f => (snd f, Z.of_N (fst f))) frames.
 
-(* RTU, strongest true statement: for EVERY list of chunks (empty ones included) that cuts a
-   stream of valid frames so that at most one frame completes per read ([opr]), every frame is
-   delivered, in order, by the read that completes it, and no call raises.  [b] = bytes already
-   buffered; the header may be {} , the initial dict or one already populated for the frame. *)
-Theorem C06_rtu_partial : forall cfg chunks b frames st,
-  r_buf st = b ->
-  match frames with [] => True | (u, pdu) :: _ => hdr_waiting (spec_adu_rtu u pdu) (r_hdr st) end ->
-  Forall (fun f => valid_frame cfg (fst f) (snd f)) frames ->
-  opr b frames chunks ->
-  rtu_feed_dels cfg st chunks = (map (fun f => (snd f, Z.of_N (fst f))) frames, map (fun _ => FOk) chunks).
+(* RTU (after the /repo repairs "processes every complete frame in its buffer" and "a frame for
+   another unit is skipped"): FULL chunking independence for every class with a prefix-stable
+   size rule (fixed size or byte count at a fixed position: all request classes, all responses
+   except FIFO and MEI).  However the byte stream of valid frames is cut into reads — any number
+   of cuts, any positions, empty reads, several frames per read — exactly the frames of served
+   units are delivered ([msgs]), in order, and no call raises.  A frame is (served?, (unit, PDU)). *)
+Theorem C06_rtu : forall cfg chunks (R : list frame) st,
+  r_buf st = [] -> (r_hdr st = hdr_empty \/ r_hdr st = r_hdr rtu_init) ->
+  Forall (vf cfg) R -> concat chunks = stream R ->
+  rtu_feed_dels cfg st chunks = (msgs R, map (fun _ => FOk) chunks).
+Proof. exact rtu_chunked_sync. Qed.
+Print Assumptions C06_rtu.
+
+(* the same from any intermediate state: [b] already buffered is a strict prefix of the next frame *)
+Theorem C06_rtu_from_any_point : forall cfg chunks R b st,
+  r_buf st = b -> Forall (vf cfg) R -> tail_ok b R -> hdr_for R (r_hdr st) ->
+  stream R = b ++ concat chunks ->
+  rtu_feed_dels cfg st chunks = (msgs R, map (fun _ => FOk) chunks).
 Proof. exact rtu_chunked. Qed.
-Print Assumptions C06_rtu_partial.
+Print Assumptions C06_rtu_from_any_point.
 
-(* the two single-call facts it rests on: a strict prefix of a valid frame is kept, silently *)
-Theorem C06_rtu_incomplete_kept : forall cfg st chunk u pdu b q,
-  valid_frame cfg u pdu -> hdr_waiting (spec_adu_rtu u pdu) (r_hdr st) ->
-  r_buf st ++ chunk = b -> spec_adu_rtu u pdu = b ++ q -> q <> [] ->
-  exists h', rtu_recv cfg st chunk = ({| r_buf := b; r_hdr := h' |}, [], FOk) /\
-             hdr_waiting (spec_adu_rtu u pdu) h'.
-Proof. exact rtu_recv_incomplete. Qed.
-Print Assumptions C06_rtu_incomplete_kept.
+(* what one call does: it drains every complete frame at the head of the buffer and keeps the
+   incomplete tail, silently *)
+Theorem C06_rtu_drain : forall cfg fs fuel nxt q h acc,
+  Forall (vf cfg) fs -> Forall (vf cfg) nxt -> tail_ok q nxt ->
+  hdr_for (fs ++ nxt) h -> (length fs < fuel)%nat ->
+  exists h', rtu_loop fuel cfg {| r_buf := stream fs ++ q; r_hdr := h |} acc
+             = ({| r_buf := q; r_hdr := h' |}, acc ++ msgs fs, FOk) /\ hdr_for nxt h'.
+Proof. exact rtu_loop_drain. Qed.
+Print Assumptions C06_rtu_drain.
 
-(* ... and a completed frame is delivered, what follows it stays buffered *)
-Theorem C06_rtu_complete_delivered : forall cfg st chunk u pdu q,
-  valid_frame cfg u pdu -> hdr_waiting (spec_adu_rtu u pdu) (r_hdr st) ->
-  r_buf st ++ chunk = spec_adu_rtu u pdu ++ q -> wfb q = true ->
-  rtu_recv cfg st chunk = ({| r_buf := q; r_hdr := hdr_empty |}, [(pdu, Z.of_N u)], FOk).
-Proof. exact rtu_recv_complete. Qed.
-Print Assumptions C06_rtu_complete_delivered.
+(* the while loop always terminates: the model's fuel is never exhausted *)
+Theorem C06_rtu_loop_terminates : forall cfg st chunk, known_rules (cf_rules cfg) ->
+  wfb (r_buf st ++ chunk) = true -> snd (rtu_recv cfg st chunk) <> FOutOfFuel.
+Proof. exact rtu_recv_no_fuel_out. Qed.
+Print Assumptions C06_rtu_loop_terminates.
 
 Example C06_nonvacuous :
-  let fa := spec_adu_rtu 1 [3; 0; 1; 0; 2] in
-  opr [] [(1, [3; 0; 1; 0; 2]); (1, [3; 0; 1; 0; 2])] [firstn 3 fa; []; skipn 3 fa ++ firstn 1 fa; skipn 1 fa; []].
-Proof. exact opr_example. Qed.
+  let cfg := {| cf_dec := fun _ => DMsg; cf_rules := server_decoder; cf_units := [1%Z]; cf_single := false |} in
+  Forall (vf cfg) [(true, (1, [3; 0; 1; 0; 2])); (false, (9, [3; 0; 1; 0; 2])); (true, (1, [16; 0; 1; 0; 1; 2; 123; 125]))].
+Proof. cbv zeta. repeat constructor; apply valid_frame_example. Qed.
 
-(* RTU: refuted — one frame per processIncomingPacket call (finding F-C06-rtu-one-frame-per-call) *)
-Theorem C06_rtu_refuted :
+(* formerly refuted, now FIXED in /repo (finding F-C06-rtu-one-frame-per-call, status fixed): two
+   frames in one read, and a frame cut across reads behind a complete one, are all delivered *)
+Theorem C06_rtu_pipelined_fixed :
   let fa := spec_adu_rtu 1 pdu_a in let fb := spec_adu_rtu 1 pdu_b in
   deliveries (rtu_feed cfg_server rtu_init [fa; fb]) = [(pdu_a, 1%Z); (pdu_b, 1%Z)] /\
-  deliveries (rtu_feed cfg_server rtu_init [fa ++ fb]) = [(pdu_a, 1%Z)] /\
-  deliveries (rtu_feed cfg_server rtu_init [fa ++ fb; []]) = [(pdu_a, 1%Z); (pdu_b, 1%Z)].
-Proof. exact rtu_one_frame_per_call_witness. Qed.
-Print Assumptions C06_rtu_refuted.
+  deliveries (rtu_feed cfg_server rtu_init [fa ++ fb]) = [(pdu_a, 1%Z); (pdu_b, 1%Z)] /\
+  deliveries (rtu_feed cfg_server rtu_init [fa ++ firstn 3 fb; skipn 3 fb]) = [(pdu_a, 1%Z); (pdu_b, 1%Z)].
+Proof. exact rtu_pipelined_fixed_witness. Qed.
+Print Assumptions C06_rtu_pipelined_fixed.
+
+(* formerly finding #19 for RTU, now FIXED in /repo: a frame for a unit not served is skipped *)
+Theorem C06_rtu_foreign_unit_skipped :
+  let cfg := {| cf_dec := fun _ => DMsg; cf_rules := server_decoder; cf_units := [1%Z]; cf_single := false |} in
+  let fa := spec_adu_rtu 1 pdu_a in let ff := spec_adu_rtu 9 pdu_b in
+  deliveries (rtu_feed cfg rtu_init [fa ++ ff ++ fa]) = [(pdu_a, 1%Z); (pdu_a, 1%Z)] /\
+  exits (rtu_feed cfg rtu_init [fa ++ ff ++ fa]) = [FOk].
+Proof. exact rtu_foreign_unit_skipped_witness. Qed.
+Print Assumptions C06_rtu_foreign_unit_skipped.
 
 (* RTU, responses: refuted — a Read Device Identification response cut inside its object list
    raises struct.error, then KeyError for ever (finding F-C06-rtu-mei-partial-raises) *)
